@@ -271,7 +271,17 @@ class Inliner:
             own |= {x.id for x in ast.walk(g) if isinstance(x, ast.Name) and isinstance(x.ctx, (ast.Store, ast.Del))}
             free = {x.id for x in ast.walk(g) if isinstance(x, ast.Name) and isinstance(x.ctx, ast.Load)} - own
             inside = {id(x) for x in ast.walk(g)}
-            if any(any(id(s_) not in inside for s_ in stores.get(v, [])) for v in free) or g.name in stores:
+            # a free name may be bound by the enclosing function only in top-level statements *before* the nested def
+            # (its value is then the same at every call)
+            pos = node.body.index(g)
+            early = set()
+            for st_ in node.body[:pos]:
+                if isinstance(st_, (ast.Assign, ast.AnnAssign, ast.AugAssign)):
+                    early |= {id(x) for x in ast.walk(st_) if isinstance(x, ast.Name)}
+
+            def late_store(v):
+                return any(id(s_) not in inside and id(s_) not in early for s_ in stores.get(v, []))
+            if any(late_store(v) for v in free) or g.name in stores:
                 continue
             # only plain calls may refer to it
             refs = [x for x in ast.walk(node) if isinstance(x, ast.Name) and x.id == g.name and id(x) not in inside]
